@@ -320,12 +320,20 @@ class StateEngine(object):
             execution that has been started, even if this instance no longer
             knows about it because it has been restarted since.
             """
-            if (state_machine.get("type") == "STANDARD" and
-                context.get("State", {}).get("Name")):
-                self.restore_execution_metadata(execution_arn)
+            state = context.get("State")
+            state_name = state.get("Name") if isinstance(state, dict) else None
+            if state_machine.get("type") == "STANDARD":
+                if state_name:
+                    self.restore_execution_metadata(execution_arn)
 
-            execution = self.executions.get(execution_arn)
-            if not execution or execution.get("status") != "RUNNING":
+                execution = self.executions.get(execution_arn)
+                if not execution or execution.get("status") != "RUNNING":
+                    return
+            elif not state_name:
+                """
+                No record is kept of EXPRESS executions. start_execution() sets
+                the state name, so an event without one was never started.
+                """
                 return
 
             event["data"] = {"Error": "States.Runtime", "Cause": message}
